@@ -1410,3 +1410,29 @@ Section InlineProofs.
     - rewrite <- Hbit; auto. destruct (td_matches td sid); auto.
   Qed.
 End InlineProofs.
+
+(* ================================================================== *)
+(* J. search over an inlined query = search for the intended meaning  *)
+(* ================================================================== *)
+Lemma file_ok_ext : forall (sat sat' : stream -> bool) fp,
+  (forall s, sat s = sat' s) -> file_ok sat fp -> file_ok sat' fp.
+Proof.
+  intros sat sat' fp E (H1 & H2 & H3). split; [|split]; auto.
+  intros si s Hs. rewrite <- E. apply H1; auto.
+Qed.
+
+(* If the parts compiled for every file are sound for the inlined query evaluated against the tag
+   bitmaps, they are sound for the meaning of the original query in which undecided streams are judged
+   by the tag definitions: all theorems of section H hold with that meaning as [sat]. *)
+Theorem file_ok_inlined : forall (atom tagname : Type) (tags : tagname -> option (tagdetails atom tagname))
+    (invert : dnf atom tagname -> dnf atom tagname) (eval_atom : stream -> atom -> bool) fuel d d' fs,
+  (forall s dd, eval_dnf tags (eval_atom s) (s_id s) (invert dd) = negb (eval_dnf tags (eval_atom s) (s_id s) dd)) ->
+  (forall s t td, tags t = Some td -> td_uncertain td (s_id s) = true -> td_any_uncertain td = true) ->
+  inline_dnf tags invert fuel d = Some d' ->
+  Forall (file_ok (fun s => eval_dnf tags (eval_atom s) (s_id s) d')) fs ->
+  Forall (file_ok (fun s => sem_dnf tags (eval_atom s) (s_id s) fuel d)) fs.
+Proof.
+  intros atom tagname tags invert eval_atom fuel d d' fs Hinv Hany Hin Hok.
+  eapply Forall_impl; [|apply Hok]. intros fp. apply file_ok_ext. intros s.
+  eapply inline_preserves; eauto.
+Qed.
